@@ -533,6 +533,8 @@ func (e *Evaluator) evalWhile(w *parser.WhileStmt) (value, error) {
 func (e *Evaluator) evalFor(f *parser.ForStmt) (value, error) {
 	e.pushScope()
 	defer e.popScope()
+	verifEv("ForEnter", "")
+	defer verifEv("ForExit", "")
 	r, err := e.newRange(f)
 	if err != nil {
 		return nil, err
